@@ -52,9 +52,10 @@ type world struct {
 	sfPos    uint64         // superfluid full-range position of A0
 	sfPosLk  uint64
 	// locks: id -> (owner, state)
-	lockOwner map[uint64]int
-	lockState map[uint64]string // bonded | unlocking | sfdelegated | sfundelegating
-	lockDenom map[uint64]string
+	lockOwner    map[uint64]int
+	lockState    map[uint64]string // bonded | unlocking | sfdelegated | sfundelegating
+	lockDenom    map[uint64]string
+	lockReceiver map[uint64]int // locks whose rewards were redirected: actor receiving them
 	// denoms: name -> admin actor (-1 renounced), prev admin, creator
 	denAdmin map[string]int
 	denPrev  map[string]int
@@ -67,14 +68,14 @@ func must(rt *rapid.T, what string, r chain.ExecResult) chain.ExecResult {
 	return r
 }
 
-func ptrBal(m balancer.MsgCreateBalancerPool) *balancer.MsgCreateBalancerPool { return &m }
+func ptrBal(m balancer.MsgCreateBalancerPool) *balancer.MsgCreateBalancerPool      { return &m }
 func ptrCL(m clmodel.MsgCreateConcentratedPool) *clmodel.MsgCreateConcentratedPool { return &m }
 
 func coin(d string, a int64) sdk.Coin { return sdk.NewInt64Coin(d, a) }
 
 func buildWorld(rt *rapid.T, t *testing.T) *world {
 	c := chain.New(t)
-	w := &world{c: c, posOwner: map[uint64]int{}, posPrev: map[uint64]int{}, lockOwner: map[uint64]int{}, lockState: map[uint64]string{}, lockDenom: map[uint64]string{}, denAdmin: map[string]int{}, denPrev: map[string]int{}}
+	w := &world{c: c, posOwner: map[uint64]int{}, posPrev: map[uint64]int{}, lockOwner: map[uint64]int{}, lockState: map[uint64]string{}, lockDenom: map[uint64]string{}, lockReceiver: map[uint64]int{}, denAdmin: map[string]int{}, denPrev: map[string]int{}}
 	vals, _ := c.App.StakingKeeper.GetAllValidators(c.Ctx)
 	if len(vals) == 0 {
 		rt.Fatalf("harness: no validator in genesis")
@@ -180,6 +181,20 @@ func buildWorld(rt *rapid.T, t *testing.T) *world {
 	l1d := mkLock(A1, w.gammDen, one, week)
 	must(rt, "sf delegate A1", c.Exec(sftypes.NewMsgSuperfluidDelegate(chain.Actor(A1), l1d, w.val)))
 	w.lockState[l1d] = "sfdelegated"
+	// every second lock has had its rewards redirected by its owner to the other owner: the current reward receiver is
+	// not the owner and must not be able to redirect them again (nor do anything else with the lock)
+	for i, id := range sortedU(w.lockOwner) {
+		if i%2 == 0 {
+			own := w.lockOwner[id]
+			other := A1
+			if own == A1 {
+				other = A0
+			}
+			if r := c.Exec(lockuptypes.NewMsgSetRewardReceiverAddress(chain.Actor(own), chain.Actor(other), id)); r.OK() {
+				w.lockReceiver[id] = other
+			}
+		}
+	}
 	// factory denoms
 	mkDen := func(a int, sub string) string {
 		r := must(rt, "create denom", c.Exec(tftypes.NewMsgCreateDenom(chain.Actor(a).String(), sub)))
@@ -243,8 +258,8 @@ func sortedS(m map[string]int) []string {
 
 // sender kinds
 type snd struct {
-	name string
-	addr sdk.AccAddress
+	name  string
+	addr  sdk.AccAddress
 	actor int // -1 for non-actors
 }
 
@@ -258,13 +273,13 @@ func (w *world) senders() []snd {
 }
 
 type attempt struct {
-	kind       string
-	obj        string
-	owner      int // rightful actor (-1 nobody)
-	build      func(sender sdk.AccAddress) sdk.Msg
-	govIsAdmin bool // gov module is a documented administrator for this message
+	kind           string
+	obj            string
+	owner          int // rightful actor (-1 nobody)
+	build          func(sender sdk.AccAddress) sdk.Msg
+	govIsAdmin     bool // gov module is a documented administrator for this message
 	controlMayFail bool
-	prevOwner  int
+	prevOwner      int
 }
 
 func (w *world) attempts(rt *rapid.T) attempt {
@@ -365,6 +380,10 @@ func (w *world) attempts(rt *rapid.T) attempt {
 		}
 		lk, _ := c.App.LockupKeeper.GetLockByID(c.Ctx, id)
 		a := attempt{obj: fmt.Sprintf("lock %d (%s, %s)", id, st, den), owner: own, prevOwner: -2}
+		if rcv, ok := w.lockReceiver[id]; ok {
+			a.obj += fmt.Sprintf(" rewards redirected to actor %d", rcv)
+			a.prevOwner = rcv // counts as "a sender with a relation to the object" for the non-triviality rule
+		}
 		isGamm := den == w.gammDen
 		switch rapid.IntRange(0, 9).Draw(rt, "lockMsg") {
 		case 0:
@@ -440,7 +459,9 @@ func (w *world) attempts(rt *rapid.T) attempt {
 			a.build = func(s sdk.AccAddress) sdk.Msg { return tftypes.NewMsgBurnFrom(s.String(), coin(d, 10), victim) }
 		case 3:
 			a.kind = "MsgForceTransfer"
-			a.build = func(s sdk.AccAddress) sdk.Msg { return tftypes.NewMsgForceTransfer(s.String(), coin(d, 10), victim, s.String()) }
+			a.build = func(s sdk.AccAddress) sdk.Msg {
+				return tftypes.NewMsgForceTransfer(s.String(), coin(d, 10), victim, s.String())
+			}
 		case 4:
 			a.kind = "MsgChangeAdmin"
 			a.build = func(s sdk.AccAddress) sdk.Msg { return tftypes.NewMsgChangeAdmin(s.String(), d, s.String()) }
@@ -474,16 +495,22 @@ func (w *world) attempts(rt *rapid.T) attempt {
 		switch rapid.IntRange(0, 3).Draw(rt, "modMsg") {
 		case 0:
 			a.kind = "MsgMint(to module account)"
-			a.build = func(s sdk.AccAddress) sdk.Msg { return tftypes.NewMsgMintTo(chain.Actor(A0).String(), coin(d, 1000), m) }
+			a.build = func(s sdk.AccAddress) sdk.Msg {
+				return tftypes.NewMsgMintTo(chain.Actor(A0).String(), coin(d, 1000), m)
+			}
 		case 1:
 			a.kind = "MsgBurn(from module account)"
 			a.build = func(s sdk.AccAddress) sdk.Msg { return tftypes.NewMsgBurnFrom(chain.Actor(A0).String(), coin(d, 1), m) }
 		case 2:
 			a.kind = "MsgForceTransfer(from module account)"
-			a.build = func(s sdk.AccAddress) sdk.Msg { return tftypes.NewMsgForceTransfer(chain.Actor(A0).String(), coin(d, 1), m, chain.Actor(A0).String()) }
+			a.build = func(s sdk.AccAddress) sdk.Msg {
+				return tftypes.NewMsgForceTransfer(chain.Actor(A0).String(), coin(d, 1), m, chain.Actor(A0).String())
+			}
 		default:
 			a.kind = "MsgForceTransfer(to module account)"
-			a.build = func(s sdk.AccAddress) sdk.Msg { return tftypes.NewMsgForceTransfer(chain.Actor(A0).String(), coin(d, 1), chain.Actor(A2).String(), m) }
+			a.build = func(s sdk.AccAddress) sdk.Msg {
+				return tftypes.NewMsgForceTransfer(chain.Actor(A0).String(), coin(d, 1), chain.Actor(A2).String(), m)
+			}
 		}
 		return a
 	}
@@ -542,37 +569,37 @@ func TestPropAuthz(t *testing.T) {
 
 // every registered Msg of the four modules must be classified (tested or justified as not acting on an owned object)
 var classified = map[string]string{
-	"/osmosis.concentratedliquidity.v1beta1.MsgCreatePosition":             "creates a new object for the sender",
-	"/osmosis.concentratedliquidity.v1beta1.MsgWithdrawPosition":           "tested",
-	"/osmosis.concentratedliquidity.v1beta1.MsgAddToPosition":              "tested",
-	"/osmosis.concentratedliquidity.v1beta1.MsgCollectSpreadRewards":       "tested",
-	"/osmosis.concentratedliquidity.v1beta1.MsgCollectIncentives":          "tested",
-	"/osmosis.concentratedliquidity.v1beta1.MsgTransferPositions":          "tested",
-	"/osmosis.concentratedliquidity.v1beta1.MsgFungifyChargedPositions":    "registered codec type without a message-server handler: cannot be executed",
+	"/osmosis.concentratedliquidity.v1beta1.MsgCreatePosition":                                "creates a new object for the sender",
+	"/osmosis.concentratedliquidity.v1beta1.MsgWithdrawPosition":                              "tested",
+	"/osmosis.concentratedliquidity.v1beta1.MsgAddToPosition":                                 "tested",
+	"/osmosis.concentratedliquidity.v1beta1.MsgCollectSpreadRewards":                          "tested",
+	"/osmosis.concentratedliquidity.v1beta1.MsgCollectIncentives":                             "tested",
+	"/osmosis.concentratedliquidity.v1beta1.MsgTransferPositions":                             "tested",
+	"/osmosis.concentratedliquidity.v1beta1.MsgFungifyChargedPositions":                       "registered codec type without a message-server handler: cannot be executed",
 	"/osmosis.concentratedliquidity.poolmodel.concentrated.v1beta1.MsgCreateConcentratedPool": "creates a pool",
-	"/osmosis.lockup.MsgLockTokens":                                        "locks the sender's own coins",
-	"/osmosis.lockup.MsgBeginUnlockingAll":                                 "acts on the sender's own locks only",
-	"/osmosis.lockup.MsgBeginUnlocking":                                    "tested",
-	"/osmosis.lockup.MsgExtendLockup":                                      "tested",
-	"/osmosis.lockup.MsgForceUnlock":                                       "tested (nobody whitelisted)",
-	"/osmosis.lockup.MsgSetRewardReceiverAddress":                          "tested",
-	"/osmosis.superfluid.MsgSuperfluidDelegate":                            "tested",
-	"/osmosis.superfluid.MsgSuperfluidUndelegate":                          "tested",
-	"/osmosis.superfluid.MsgSuperfluidUnbondLock":                          "tested",
-	"/osmosis.superfluid.MsgSuperfluidUndelegateAndUnbondLock":             "tested",
-	"/osmosis.superfluid.MsgLockAndSuperfluidDelegate":                     "locks the sender's own coins",
-	"/osmosis.superfluid.MsgCreateFullRangePositionAndSuperfluidDelegate":  "creates a new object for the sender",
-	"/osmosis.superfluid.MsgUnPoolWhitelistedPool":                         "acts on the sender's own locks of a governance-whitelisted pool only",
-	"/osmosis.superfluid.MsgUnlockAndMigrateSharesToFullRangeConcentratedPosition": "tested",
-	"/osmosis.superfluid.MsgAddToConcentratedLiquiditySuperfluidPosition":  "tested",
-	"/osmosis.superfluid.MsgUnbondConvertAndStake":                         "tested",
-	"/osmosis.tokenfactory.v1beta1.MsgCreateDenom":                         "tested (namespace)",
-	"/osmosis.tokenfactory.v1beta1.MsgMint":                                "tested",
-	"/osmosis.tokenfactory.v1beta1.MsgBurn":                                "tested",
-	"/osmosis.tokenfactory.v1beta1.MsgChangeAdmin":                         "tested",
-	"/osmosis.tokenfactory.v1beta1.MsgSetDenomMetadata":                    "tested",
-	"/osmosis.tokenfactory.v1beta1.MsgSetBeforeSendHook":                   "tested",
-	"/osmosis.tokenfactory.v1beta1.MsgForceTransfer":                       "tested",
+	"/osmosis.lockup.MsgLockTokens":                                                           "locks the sender's own coins",
+	"/osmosis.lockup.MsgBeginUnlockingAll":                                                    "acts on the sender's own locks only",
+	"/osmosis.lockup.MsgBeginUnlocking":                                                       "tested",
+	"/osmosis.lockup.MsgExtendLockup":                                                         "tested",
+	"/osmosis.lockup.MsgForceUnlock":                                                          "tested (nobody whitelisted)",
+	"/osmosis.lockup.MsgSetRewardReceiverAddress":                                             "tested",
+	"/osmosis.superfluid.MsgSuperfluidDelegate":                                               "tested",
+	"/osmosis.superfluid.MsgSuperfluidUndelegate":                                             "tested",
+	"/osmosis.superfluid.MsgSuperfluidUnbondLock":                                             "tested",
+	"/osmosis.superfluid.MsgSuperfluidUndelegateAndUnbondLock":                                "tested",
+	"/osmosis.superfluid.MsgLockAndSuperfluidDelegate":                                        "locks the sender's own coins",
+	"/osmosis.superfluid.MsgCreateFullRangePositionAndSuperfluidDelegate":                     "creates a new object for the sender",
+	"/osmosis.superfluid.MsgUnPoolWhitelistedPool":                                            "acts on the sender's own locks of a governance-whitelisted pool only",
+	"/osmosis.superfluid.MsgUnlockAndMigrateSharesToFullRangeConcentratedPosition":            "tested",
+	"/osmosis.superfluid.MsgAddToConcentratedLiquiditySuperfluidPosition":                     "tested",
+	"/osmosis.superfluid.MsgUnbondConvertAndStake":                                            "tested",
+	"/osmosis.tokenfactory.v1beta1.MsgCreateDenom":                                            "tested (namespace)",
+	"/osmosis.tokenfactory.v1beta1.MsgMint":                                                   "tested",
+	"/osmosis.tokenfactory.v1beta1.MsgBurn":                                                   "tested",
+	"/osmosis.tokenfactory.v1beta1.MsgChangeAdmin":                                            "tested",
+	"/osmosis.tokenfactory.v1beta1.MsgSetDenomMetadata":                                       "tested",
+	"/osmosis.tokenfactory.v1beta1.MsgSetBeforeSendHook":                                      "tested",
+	"/osmosis.tokenfactory.v1beta1.MsgForceTransfer":                                          "tested",
 }
 
 func TestRegressMessageTableComplete(t *testing.T) {
